@@ -991,6 +991,17 @@ func (f *Frame) tryInline(st *State, call *ast.CallExpr, fn *types.Func, src *Fu
 			f.writeBackArg(st, w.a, fv)
 		}
 	}
+	// results that are pointers into the callee's parameters become pointers into the caller's
+	// arguments (e.g. a helper returning &recv.Field)
+	pmap := map[types.Object]boundArg{}
+	for _, w := range wbs {
+		pmap[w.obj] = w.a
+	}
+	for i := range results {
+		if len(results[i].Refs) > 0 {
+			results[i].Refs = f.translateRefs(results[i].Refs, pmap)
+		}
+	}
 	f.c.inlined[funcKey(fn)] = true
 	return results, true
 }
